@@ -1,20 +1,20 @@
 SPECIFICATION Spec
 CONSTANTS
-  Cfg <- CfgTasfound
+  Cfg <- CfgA
   Kinds = {"scion"}
-  Shapes <- ShapesTable
-  Vias = {0, 21, 1, 2, 3, 4, 5}
+  Shapes <- ShapesOne3
+  Vias = {0, 1, 3}
   SrcDom = {"L", "F"}
-  DstDom = {"F"}
-  Faults = {"none"}
+  DstDom = {"L", "F"}
+  Faults = {"none", "len", "srchost"}
   L4Dom = {"udp"}
-  InSideDom = {0, 1, 2, 3, 4, 5, 21}
-  EgSideDom = {0, 11, 12, 13, 14, 15, 21, 22, 23, 24, 25, 999}
-  PeerDom = {FALSE, TRUE}
+  InSideDom = {0, 1, 999}
+  EgSideDom = {0, 2, 3, 999}
+  PeerDom = {FALSE}
   ExpDom = {FALSE}
   AuthDom <- AuthOK
   AlertDom <- NoAlert
   EpicDom <- EpicOK
 INVARIANTS TypeOK InvC01 InvC05 InvC06 InvC12 InvC13 InvC15 InvC15Answer InvPtr
-\* no scenarios
+CONSTRAINT Emit
 CHECK_DEADLOCK FALSE
